@@ -234,9 +234,17 @@ def warmup():
                                                            ['tb', [1, 2, 3, 4, 5]], ['lb', [1, 2, 3, 4, 5]]]}
     Lu = dict(L, keys=[[1, 2, 3, 4]])
     Ru = dict(R, keys=[[0, 2, 3, 4, 5]])
+    # how='right' is warmed up with every right row matched: on the unrepaired tree (F-C02c) an unmatched right row
+    # makes the compiled kernels read out of bounds, which must not happen in the zygote process
+    Rm = dict(R, keys=[[2, 2, 4, 4, 4]])
+    R3 = dict(R, keys=[[1, 2, 4]], cols=[[n, v[:3]] for n, v in R['cols']])
     for how in HOWS:
         for (l, r, hints) in ((L, R, [None] * 4), (L, R, [True, False, True, False]), (Lu, R, [True, True, True, False]),
                               (L, Ru, [True, False, True, True]), (Lu, Ru, [True, True, True, True])):
+            if how == 'right' and hints[0]:
+                lu, ru = hints[1], hints[3]
+                r = R3 if ru else Rm
+                l = dict(l, keys=[[1, 2, 4, 7]] if lu else ([[1, 2, 4, 4]] if ru else [[1, 2, 2, 4]]))
             for cs in (2, None):
                 try:
                     run({'how': how, 'hints': hints, 'L': l, 'R': r, 'lf': None, 'rf': None,
